@@ -170,3 +170,94 @@ def split_factor(days, d_from, d_to):
             for m in day.splits:
                 f *= m
     return f
+
+
+# ---------------------------------------------------------------------------------------------
+# tool-vs-tool comparison of two parsed reports
+
+def cmp_num(a, b, exact, tol, scale=None):
+    if exact:
+        return a == b
+    return close(a, b, tol, scale if scale is not None else b)
+
+
+def compare_reports(A, B, *, exact=False, leg_gains=True, qty_scale=None, what=("years", "holdings"),
+                    year_totals=True, dividends=True, label=("A", "B")):
+    """Differences between two parsed reports (lists of strings). Legs are merged per
+    (rule, acquisition date) and dust is dropped. qty_scale: {ticker: {date: factor}} unused here."""
+    diffs = []
+    la, lb = label
+    if "years" in what:
+        ya = {y["start_year"]: y for y in A["years"]}
+        yb = {y["start_year"]: y for y in B["years"]}
+        if [y["start_year"] for y in A["years"]] != [y["start_year"] for y in B["years"]]:
+            diffs.append(f"tax years {la}={[y['start_year'] for y in A['years']]} {lb}={[y['start_year'] for y in B['years']]}")
+        for sy in sorted(set(ya) & set(yb)):
+            a, b = ya[sy], yb[sy]
+            da = {(d["date"], d["ticker"]): d for d in a["disposals"]}
+            db = {(d["date"], d["ticker"]): d for d in b["disposals"]}
+            if [k for k in da] != [k for k in db]:
+                diffs.append(f"{sy}: disposal lists differ {la}={[str(k[0]) + ' ' + k[1] for k in da]} {lb}={[str(k[0]) + ' ' + k[1] for k in db]}")
+            for k in da:
+                if k not in db:
+                    continue
+                x, y = da[k], db[k]
+                for fld, tol in (("qty", TOL_FINE), ("gross", TOL_10DP), ("net", TOL_10DP)):
+                    if not cmp_num(x[fld], y[fld], exact, tol):
+                        diffs.append(f"{k[1]} {k[0]}: {fld} {la}={float(x[fld])!r} {lb}={float(y[fld])!r}")
+                mx, my = merged_legs(x["legs"]), merged_legs(y["legs"])
+                if [(l["rule"], l["acq"]) for l in mx] != [(l["rule"], l["acq"]) for l in my]:
+                    diffs.append(f"{k[1]} {k[0]}: legs {la}={[(l['rule'], str(l['acq']), float(l['qty'])) for l in mx]} "
+                                 f"{lb}={[(l['rule'], str(l['acq']), float(l['qty'])) for l in my]}")
+                    continue
+                for l1, l2 in zip(mx, my):
+                    if not cmp_num(l1["qty"], l2["qty"], exact, TOL_FINE):
+                        diffs.append(f"{k[1]} {k[0]} {l1['rule']} {l1['acq']}: quantity {la}={float(l1['qty'])!r} {lb}={float(l2['qty'])!r}")
+                    if not cmp_num(l1["cost"], l2["cost"], exact, TOL_FINE * 1000, l2["cost"] * 1000):
+                        diffs.append(f"{k[1]} {k[0]} {l1['rule']} {l1['acq']}: cost {la}={float(l1['cost'])!r} {lb}={float(l2['cost'])!r}")
+                    if leg_gains and not cmp_num(l1["gain"], l2["gain"], exact, TOL_10DP, abs(l2["gain"]) + abs(l2["cost"])):
+                        diffs.append(f"{k[1]} {k[0]} {l1['rule']} {l1['acq']}: gain {la}={float(l1['gain'])!r} {lb}={float(l2['gain'])!r}")
+                ga = sum((l["gain"] for l in x["legs"]), ZERO)
+                gb = sum((l["gain"] for l in y["legs"]), ZERO)
+                if not cmp_num(ga, gb, exact and leg_gains, TOL_10DP, abs(gb) + abs(y["net"])):
+                    diffs.append(f"{k[1]} {k[0]}: disposal result {la}={float(ga)!r} {lb}={float(gb)!r}")
+            if year_totals:
+                for fld in ("total_gain", "total_loss", "net_gain", "exempt_amount", "taxable_gain"):
+                    if not cmp_num(a[fld], b[fld], exact and leg_gains, TOL_10DP * 10, abs(b["total_gain"]) + abs(b["total_loss"])):
+                        diffs.append(f"{sy}: {fld} {la}={float(a[fld])!r} {lb}={float(b[fld])!r}")
+                if a["disposal_count"] != b["disposal_count"]:
+                    diffs.append(f"{sy}: disposal_count {la}={a['disposal_count']} {lb}={b['disposal_count']}")
+            if dividends:
+                for fld in ("dividend_income", "dividend_tax_paid"):
+                    if not cmp_num(a[fld], b[fld], exact, TOL_FINE * 1000):
+                        diffs.append(f"{sy}: {fld} {la}={float(a[fld])!r} {lb}={float(b[fld])!r}")
+    if "holdings" in what:
+        ha = {k: v for k, v in A["holdings"].items() if abs(v[0]) >= DUST or abs(v[1]) >= DUST}
+        hb = {k: v for k, v in B["holdings"].items() if abs(v[0]) >= DUST or abs(v[1]) >= DUST}
+        if set(ha) != set(hb):
+            diffs.append(f"holdings {la}={sorted(ha)} {lb}={sorted(hb)}")
+        for k in set(ha) & set(hb):
+            if not cmp_num(ha[k][0], hb[k][0], exact, TOL_FINE * 1000):
+                diffs.append(f"holding {k}: quantity {la}={float(ha[k][0])!r} {lb}={float(hb[k][0])!r}")
+            if not cmp_num(ha[k][1], hb[k][1], exact, TOL_FINE * 10 ** 4, hb[k][1] * 1000):
+                diffs.append(f"holding {k}: cost {la}={float(ha[k][1])!r} {lb}={float(hb[k][1])!r}")
+    return diffs
+
+
+def nonconsecutive_sells(txs):
+    """{(ticker, date)} where >=2 SELL lines of the security on that date are not consecutive once the
+    lines are stably sorted by date (the tool merges only consecutive SELL lines) - the F16 shape."""
+    out = set()
+    order = sorted(range(len(txs)), key=lambda i: txs[i]["date"])
+    seq = [txs[i] for i in order]
+    from collections import defaultdict
+    groups = defaultdict(list)
+    for pos, t in enumerate(seq):
+        if t["kind"] == "SELL":
+            groups[(t["ticker"], t["date"])].append(pos)
+    for k, ps in groups.items():
+        if len(ps) >= 2:
+            # consecutive iff every line between first and last is a SELL of the same ticker
+            if any(not (seq[p]["kind"] == "SELL" and seq[p]["ticker"] == k[0]) for p in range(ps[0], ps[-1] + 1)):
+                out.add(k)
+    return out
